@@ -1,0 +1,18 @@
+//go:build verif
+
+package util
+
+import "sync/atomic"
+
+// VerifPointFunc is installed by the verification harness (/verif) to take control at named
+// scheduling points. It is only compiled with the build tag "verif".
+var verifPointFunc atomic.Value // func(name, key string)
+
+func SetVerifPointFunc(f func(name, key string)) { verifPointFunc.Store(f) }
+
+// VerifPoint is a no-op yield point: with the tag "verif" a harness may park the calling goroutine here.
+func VerifPoint(name, key string) {
+	if f, ok := verifPointFunc.Load().(func(name, key string)); ok && f != nil {
+		f(name, key)
+	}
+}
